@@ -351,6 +351,21 @@ class Executor:
                       [base_name(g) for g in generic_args(self.fn_trait_raw[f.name])] == want]
                 if c2:
                     cands = c2
+                if len(cands) > 1:
+                    # same last segment (io::Error vs lsm_tree::Error): compare whole paths by suffix
+                    def segs(t):
+                        return [x for x in re.sub(r'<.*', '', t.strip().lstrip('&')).split('::') if x]
+                    wantp = [segs(g) for g in generic_args(trait)]
+                    c3 = []
+                    for f in cands:
+                        raw = self.fn_trait_raw.get(f.name)
+                        if not raw:
+                            continue
+                        havep = [segs(g) for g in generic_args(raw)]
+                        if len(havep) == len(wantp) and all(a[-min(len(a), len(b)):] == b[-min(len(a), len(b)):] for a, b in zip(havep, wantp)):
+                            c3.append(f)
+                    if c3:
+                        cands = c3
             if len(cands) == 1:
                 return cands[0], None
             if not cands and traitname:
@@ -1081,6 +1096,11 @@ class Executor:
             callee = re.sub(r'\bSelf\b', fr.self_ty, callee)
         # 1. contract
         summ = self.contract.lookup(c0, callee)
+        if summ is not None and self.contract.is_generic(c0) and not any(p.search(c0) for p in self.no_inline):
+            fn_, sty_ = self.resolve(callee, fr)
+            if fn_ is not None:
+                yield from self.call_fn(st, fn_, args, sty_)
+                return
         if summ is not None:
             self.stats['summarised'][c0] = self.stats['summarised'].get(c0, 0) + 1
             call = CallInfo(callee, c0, args, dst_ty, fr, depth, argops)
